@@ -57,6 +57,13 @@ def mk_graph(g):
         N.add_edges_from((v, u) for u, v in reversed(g['edges']))
         N.name = 'a networkx graph'
         return N
+    if g.get('grown') and g['n'] >= 2:
+        # the same graph reached by growing: start smaller, raise the vertex count in one call, then add the edges
+        G = Graph(g['n'] - 2)
+        G.update_vertex_number(g['n'])
+        for u, v in reversed(g['edges']):
+            G.add_edge(v, u)
+        return G
     G = Graph(g['n'])
     for u, v in g['edges']:
         G.add_edge(u, v)
@@ -193,4 +200,6 @@ def with_networkx_inputs(name_points, every=5):
         if 'edges' in p and i % every == 2:
             q = dict(p, nx=1 + (i // every) % 2)
             out.append((name, q))
+        if 'edges' in p and 'n' in p and 'l' not in p and i % every == 4:
+            out.append((name, dict(p, grown=1)))
     return out
